@@ -59,6 +59,9 @@ enum Op {
     Move { s: usize, to: usize },
     /// external file secret created from a real file on disc
     Attach { f: usize },
+    /// a second external file owned by an existing secret (a file field
+    /// created from a real file on disc)
+    AttachField { s: usize },
     CustomField { s: usize },
     DeleteFolder { f: usize },
     Compact { f: usize },
@@ -126,6 +129,9 @@ fn histories(tier: Tier) -> Vec<History> {
     v.push(History { name: "h0-base+deleted-folder+prefs+device".into(), ops: h0 });
     let mut h1 = base(["bank", "contact", "totp"]);
     h1.push(Op::Attach { f: 0 });
+    // the file secret owns two external files, a login owns one
+    h1.push(Op::AttachField { s: 3 });
+    h1.push(Op::AttachField { s: 1 });
     h1.push(Op::FolderCipher);
     h1.push(Op::Secret { f: 2, kind: "age".into(), variant: 0 });
     v.push(History { name: "h1-base+attachment".into(), ops: h1 });
@@ -152,6 +158,8 @@ fn histories(tier: Tier) -> Vec<History> {
             ("update-twice+compact", vec![Op::Update { s: 1 }, Op::Update { s: 1 }, Op::Compact { f: 1 }]),
             ("prefs+device+fields", vec![Op::Prefs, Op::TrustDevice, Op::CustomField { s: 2 }]),
             ("two-attachments", vec![Op::Attach { f: 0 }, Op::Attach { f: 1 }]),
+            ("three-files-of-one-secret", vec![Op::Attach { f: 0 }, Op::AttachField { s: 3 }, Op::AttachField { s: 3 }]),
+            ("move-secret-with-two-files", vec![Op::Attach { f: 0 }, Op::AttachField { s: 3 }, Op::Move { s: 3, to: 1 }]),
             ("archive-then-delete", vec![Op::Archive { s: 1 }, Op::DeleteSecret { s: 1 }]),
         ];
         let sets = [["note", "login", "list"], ["card", "bank", "contact"], ["totp", "pem", "page"]];
@@ -193,6 +201,7 @@ fn suffix_alphabet() -> Vec<Op> {
         Op::Move { s: 2, to: 1 },
         Op::DeleteFolder { f: 1 },
         Op::CustomField { s: 2 },
+        Op::AttachField { s: 2 },
         Op::Compact { f: 0 },
         Op::Folder { flags: false, desc: true },
         Op::Rename { f: 0 },
@@ -210,6 +219,7 @@ fn enabled(ops: &[Op]) -> bool {
     let mut secrets: Vec<(bool, usize)> = vec![];
     let mut prefs = false;
     let mut device = false;
+    let mut with_file_field: Vec<usize> = vec![];
     for op in ops {
         let f_ok = |f: &usize| folders.get(*f).copied() == Some(true);
         let s_ok = |s: &usize| secrets.get(*s).map(|x| x.0) == Some(true);
@@ -226,10 +236,22 @@ fn enabled(ops: &[Op]) -> bool {
                     return false;
                 }
             }
-            Op::Update { s } | Op::CustomField { s } => {
+            Op::Update { s } => {
+                // an update replaces the whole secret (and with it a file field)
+                if !s_ok(s) || with_file_field.contains(s) {
+                    return false;
+                }
+            }
+            Op::CustomField { s } => {
                 if !s_ok(s) {
                     return false;
                 }
+            }
+            Op::AttachField { s } => {
+                if !s_ok(s) {
+                    return false;
+                }
+                with_file_field.push(*s);
             }
             Op::DeleteSecret { s } => {
                 if !s_ok(s) {
@@ -403,6 +425,20 @@ async fn apply(dev: &mut Dev, st: &mut St, op: &Op, marker: &str, scratch: &Path
             let r = acc.create_secret(meta, secret, AccessOptions { folder: Some(fid(st, *f)?), ..Default::default() }).await?;
             st.secrets.push((true, *f, Some(r.id), "file-ext".into()));
             st.attachments.push((slot, bytes));
+        }
+        Op::AttachField { s } => {
+            let (_, f, id, _) = st.secrets[*s].clone();
+            let folder = sfolder(st, f)?;
+            let n = st.attachments.len();
+            let bytes = attachment_bytes(marker, 100 + n);
+            let path = scratch.join(format!("att-field-{}-{}.txt", marker, n));
+            std::fs::write(&path, &bytes)?;
+            let secret: Secret = path.clone().try_into()?;
+            let meta = sos_vault::secret::SecretMeta::new(format!("file-field-{}-{}", n, marker), secret.kind());
+            let (mut row, _) = acc.read_secret(&id.unwrap(), Some(&folder)).await?;
+            row.secret_mut().add_field(SecretRow::new(SecretId::new_v4(), meta, secret));
+            acc.update_secret(&id.unwrap(), row.meta().clone(), Some(row.secret().clone()), AccessOptions { folder: Some(folder), ..Default::default() }).await?;
+            st.attachments.push((*s, bytes));
         }
         Op::CustomField { s } => {
             let (_, f, id, _) = st.secrets[*s].clone();
@@ -1328,7 +1364,7 @@ fn main() {
     cov.insert("exhaustive".into(), json!(true));
     cov.insert(
         "rule".into(),
-        json!("histories: 4 fixed (quick) + 10 named + base ++ every enabled suffix of length <= 2 over 13 operations (thorough). source trees = every history never synced + two 2-account data dirs + a subset (quick) / every (thorough) history synced to a real server + one 2-account synced dir + synced-then-edited-locally trees; every synced (not edited) tree also contributes its server directory as a server-layout tree. Each tree: dry run (source digest unchanged, no db file) then real upgrade (alternating default options and keep_stale_files+backup_directory); oracle per account: sync_status, record streams (commit, timestamp, bytes), decrypted view, trusted devices, account + global preferences, server origins, blob set and bytes, decrypted attachments; syncs: upgraded client x old server, old client x upgraded server, upgraded client x upgraded server"),
+        json!("histories: 4 fixed (quick) + 10 named + base ++ every enabled suffix of length <= 2 over 14 operations (thorough). source trees = every history never synced + two 2-account data dirs + a subset (quick) / every (thorough) history synced to a real server + one 2-account synced dir + synced-then-edited-locally trees; every synced (not edited) tree also contributes its server directory as a server-layout tree. Each tree: dry run (source digest unchanged, no db file) then real upgrade (alternating default options and keep_stale_files+backup_directory); oracle per account: sync_status, record streams (commit, timestamp, bytes), decrypted view, trusted devices, account + global preferences, server origins, blob set and bytes, decrypted attachments; syncs: upgraded client x old server, old client x upgraded server, upgraded client x upgraded server"),
     );
     std::process::exit(run.finish(cov));
 }
